@@ -10,7 +10,7 @@ CHECKS = {
         "text": "Structural = the property: every global definition in every buildable configuration (host, 3 other Unix entropy variants, TRNG-none, volatile-clean; "
                 "N0 and -O3 IR) is constant and non-TLS, every external call is in a per-configuration allow-list of stateless imports (no heap, no VLA), no parameter pointer "
                 "is stored outside the frame except the documented callback retention, and the 27 assembly programs define no writable section. With these, a call's effect is "
-                "confined to its arguments and frame, so calls on disjoint objects commute under every schedule.",
+                "confined to its arguments and frame, so calls on disjoint objects commute under every schedule. R-C19-FRESH: the PRNG initialisers leave no byte of the caller's object that they later hash to its previous content (the other carrier of 'depends on earlier unrelated calls'); listed as not decided when the seeding summary does not follow the code.",
         "note": "Trusted: clang 14 front end; allow-listed libc functions are thread-safe and errno is per-thread. gcc builds are covered at symbol level only (thorough tier). "
                 "Windows/Arduino/ESP/STM32 TRNG files are not buildable here and not covered.",
         "technique": "module-level effect/ownership census over LLVM IR (globals, imports, pointer escapes) + assembly section scan",
@@ -85,7 +85,7 @@ CHECKS = {
                 "schedule (SCHED), key/base/stack registers are loop-invariant and nothing else is live into the loop - so the per-iteration result extends to every round count >= 1. On the same "
                 "paths: stores only to the four state words or the own frame, loads inside the structure (EFFECT); stack, return address and every written callee-saved register restored (ABI, both "
                 "Xtensa ABIs). SELECT: every target macro set selects one backend macro and exactly one unit defines each entry point. WELLFORMED: 7 of 8 ISAs assemble with LLVM-14 and the "
-                "instruction counts agree with the parse. The three C backends get the same STEP/SCHED/EFFECT treatment on their N0 IR.",
+                "instruction counts agree with the parse. The three C backends get the same STEP/SCHED/EFFECT treatment on their N0 IR. No access to the state claims more than the 8-byte alignment its type guarantees.",
         "note": "NOT decided: the clause 'generated files are byte-identical to the generators' output' (needs running tools/gen*; no AVR generator is bundled) - declined as not static. ISA "
                 "semantics and ABI tables are trusted as transcribed in tj/asmx.py; Xtensa has no assembler here (text only). rounds == 0 is outside the property.",
         "technique": "abstract interpretation of assembly / IR in a GF(2) bit-provenance term domain, one symbolic loop iteration + structural induction premises; effect and ABI pairing rules",
@@ -98,7 +98,7 @@ CHECKS = {
                 "same input state; substituting encrypt's output-byte terms for decrypt's input bytes, decrypt's output equals the plaintext bit for bit and its state equals encrypt's (a 0x7F mask, "
                 "a sign extension, a one-sided constant is refuted); the only length store is mlen+8 / clen-8; cursors and remaining length (or one index over full words plus the left-over count) advance in lock-step through one or several "
                 "data loops, the tag sits right after the data and survives, every input byte is loaded before the same output offset is stored; decrypt returns check_tag's verdict on the tag just generated."
-                " Structure is recognised first (pointer-walking or index-based loops, bulk loops, merged tails); an unrecognised shape ends in exit 2, never in a verdict.",
+                " Structure is recognised first (pointer-walking or index-based loops, bulk loops, merged tails); an unrecognised shape ends in exit 2, never in a verdict. Code that tests buffer alignment is followed per alignment class (alternative chains of data loops; every way through encrypt paired with every way through decrypt); R-C01-SETUPFN: the shared setup function computes the same state from the nonce bytes on every path class; R-C01-NOSTATE: no function reachable from the entry points refers to writable global state. R-C01-SMALL: every message length 0..40 as straight paths - length stored, exactly the output bytes written, tag position, load before store per offset, no read outside the input.",
         "note": "Induction itself is the argument in DESIGN.md. A deviation from the specification made consistently in both directions keeps the round trip and is deliberately not reported by this "
                 "check. N0 IR of clang 14; alignment/endianness independence is C06's R-BYTEWISE; purity of helpers/permutation is C05/C19.",
         "technique": "relational symbolic path summaries (encrypt vs decrypt) in a GF(2) bit-provenance term domain with term substitution, per path class; affine cursor tracking",
@@ -106,7 +106,7 @@ CHECKS = {
     "C02": {
         "text": "Construction conformance on every path: the same per-path-class summaries compared with the TinyJAMBU v2 reference (frame bits 0x10/0x30/0x50/0x70, 640-step and 1024/1152/1280-step "
                 "permutations, key words NOT LE32, nonce words, partial-block length injection into word 1, tag = two squeezes of word 2) for setup_N, absorb_N, generate_tag_N and the six AEAD "
-                "functions, plus the three C permutation backends against the bit-serial NLFSR for every round count (C05's STEP/SCHED). Pins every absorbed and emitted bit to the specification's formula.",
+                "functions, plus the three C permutation backends against the bit-serial NLFSR for every round count (C05's STEP/SCHED). Pins every absorbed and emitted bit to the specification's formula. Besides the per-class summaries, shape-independent small-length rules evaluate each AEAD function and absorb_N for every length 0..40 as straight paths (length concrete, data symbolic, one path per alignment class) and compare them with the sequential reference: refuters only (nothing beyond the bound is covered), so an unrecognised loop shape with a defect that shows at small lengths is still reported. setup_N is checked per path class (alignment of the nonce pointer), absorb_N per alternative loop. R-C02-NOSTATE: no writable global state reachable from the entry points.",
         "note": "No value is computed: agreement with other implementations follows only given that tj/mode.py and tj/asmx.py transcribe the specification correctly (trusted). gcc and object-level "
                 "equivalence of shared/static builds not covered; alignment/endianness independence is C06's.",
         "technique": "symbolic path summaries in a GF(2) term domain vs a reference model of the mode; permutation by abstract interpretation of one loop iteration",
@@ -116,14 +116,16 @@ CHECKS = {
                 "place of the generated tag (same callee, domain, key, nonce composition; encrypt stores the tag at c+mlen); per path class of the keystream pass both run the same permutation call "
                 "and decrypt applied to encrypt's output terms returns the plaintext bit for bit; decrypt's authentication pass repeats encrypt's first pass call for call over (npub, ad, recovered "
                 "plaintext, clen-8); lock-step/tag position/load-before-store (the tag bytes are copied before the first plaintext store), and C03's guard / must-pass / argument rules on "
-                "the three SIV decrypt functions.",
+                "the three SIV decrypt functions."
+                " R-C08-SETUPFN (setup is a function of the nonce bytes on every path class and every nonce bit enters the state), R-C08-NOSTATE (no writable global state reachable), R-C08-SMALL "
+                "(every length 0..40 as straight paths: i/o and memory discipline, refusal of inputs shorter than a tag).",
         "note": "Values not computed; tag sensitivity is a cipher property; check_tag itself is decided under C03/C04. Consistent deviations from the construction are C09's.",
         "technique": "relational symbolic path summaries (encrypt vs decrypt) in a GF(2) term domain; finite-class execution for the length guard",
     },
     "C09": {
         "text": "Construction conformance of the six SIV functions with the documented two-pass construction (constants 0x90/0xB0/0xD0, pass 2 never absorbs, nonce' composition) at bit level on "
                 "every path class, and the dependency shape this implies: the pass-2 state derives from setup(key, npub[0..3] || tag) only, so the keystream depends on key, four nonce bytes and tag; "
-                "the message enters the body only through the final xor at the same offset.",
+                "the message enters the body only through the final xor at the same offset. Besides the per-class summaries, shape-independent small-length rules evaluate each SIV function for every length 0..40 as straight paths (length concrete, data symbolic, one path per alignment class) and compare them with the sequential reference: refuters only (nothing beyond the bound is covered), so an unrecognised loop shape with a defect that shows at small lengths is still reported. R-C09-NOSTATE as for C02.",
         "note": "NOT decided: 'different tags give unrelated keystreams / XOR of bodies differs from XOR of plaintexts beyond chance' - a cryptographic property of the permutation, declined.",
         "technique": "symbolic path summaries in a GF(2) term domain vs the documented construction",
     },
@@ -136,7 +138,7 @@ CHECKS = {
                 "caller byte buffers claim alignment 1 (N0 and -O3) and are one byte wide (N0); nothing is written through a pointer-to-const parameter. (SHIFT) shift amounts below the width "
                 "(constants exactly, variables by known-bits range). (EXACT) AEAD/SIV write exactly mlen+8 / clen-8 bytes per path class, refusals write nothing; wipes and hash_update never touch "
                 "bytes outside the declared range for every length/alignment class (D-COV, one-sided). (ASM) stores/loads of the 27 assembly programs stay in the state words / frame. "
-                "Plus compile-fail witnesses.",
+                "Plus compile-fail witnesses. (ALIGN) no access through a pointer parameter claims more than 8-byte alignment. A wide access to a caller byte buffer is accepted when dominated by a test of that buffer's address, or when D-COV computes its address to be a multiple of the width in every (alignment, length) class; where the affine analysis has no trip count (a loop that tests the cursor's alignment) the bounds clause falls back to D-COV's per-class coverage.",
         "note": "Modular: inside a function pointer parameters have the documented sizes (contract table = trusted transcription of TinyJAMBU.h); undecided side conditions (no-wrap without a "
                 "parameter-only witness, variable shifts, nsw on opaque operands, exact ranges of functions whose shape the mode summaries do not recognise) are listed in the evidence, not reported; "
                 "an access that can be neither proven nor refuted makes the check exit 2. -O3 objects only for alignment claims; gcc not covered.",
@@ -146,7 +148,7 @@ CHECKS = {
         "text": "Construction conformance of TinyJAMBU-Hash with the documented MDPH construction: init, update and finalize are evaluated per buffer-position class (0..15), per length class, with "
                 "one generic iteration of the whole-block loop; all offsets are then constants and block contents are tracked byte for byte in the GF(2) term domain with the permutation "
                 "uninterpreted. Every compression equals K = R||M, L ^= d, L' = P(K,L)^L, R' = P(K,L^1)^L^1 with 20 rounds, d = 0 / 2 (final), padding 0x01 0*, digest = LE32(L')||LE32(R'); the blocks "
-                "compressed are exactly the consecutive 16-byte groups of the message; the 256-bit C permutation equals the NLFSR for every round count.",
+                "compressed are exactly the consecutive 16-byte groups of the message; the 256-bit C permutation equals the NLFSR for every round count. Besides the per-class summaries, shape-independent small-length rules evaluate tinyjambu_hash_update for each buffer position and every input length 0..48 as straight paths (length concrete, data symbolic, one path per alignment class) and compare them with the sequential reference: refuters only (nothing beyond the bound is covered), so an unrecognised loop shape with a defect that shows at small lengths is still reported. A block loop that also tops up the buffer in its first round is analysed with that iteration peeled into the entry path.",
         "note": "No digest is computed; the MDPH description in tj/rules/hashlib.py is a trusted transcription of tools/hashref/README.md and the source comments. Little-endian host branch only.",
         "technique": "symbolic path summaries per finite class (buffer position, length residue) in a GF(2) term domain vs a reference model",
     },
@@ -154,7 +156,7 @@ CHECKS = {
         "text": "tinyjambu_hash_update is shown to implement 'append to a byte stream; compress every full 16 bytes' exactly: for each of the 16 buffer positions and every length class the buffered "
                 "bytes, the bytes taken for the top-up, the whole-block loop (generic iteration, lock-step cursor/remaining) and the stashed tail are the consecutive bytes of (buffered || input), and the "
                 "position is updated accordingly; so the abstract state after a call depends on the concatenated stream only, which gives split-independence by induction over the calls. init/reinit "
-                "write every field that is read before written (whatever the object held); one-shot = init; update; finalize; free.",
+                "write every field that is read before written (whatever the object held); one-shot = init; update; finalize; free. Besides the per-class summaries, shape-independent small-length rules evaluate update for each buffer position and every input length 0..48 as straight paths (length concrete, data symbolic, one path per alignment class) and compare them with the sequential reference: refuters only (nothing beyond the bound is covered), so an unrecognised loop shape with a defect that shows at small lengths is still reported.",
         "note": "Digest equality as a value is not computed. Isolation between state objects rests on C19 (no globals).",
         "technique": "symbolic path summaries per finite class vs an abstract stream machine; induction over the call sequence stated in DESIGN.md",
     },
@@ -171,7 +173,7 @@ CHECKS = {
                 "info | n) with the counter byte absorbed before its 8-bit increment, refusal with a zero-filled remainder when the counter is 0, left-over bytes served first, min(32, remaining) bytes "
                 "handed out per block, cursor/remaining in lock-step. HMAC calls are uninterpreted events with fresh output symbols; buffer contents tracked byte for byte. The 255-block limit is a "
                 "semantic rule: no block is generated with the 8-bit counter at 0 - by a check at the top of every iteration or because counter != 0 is an inductive invariant of the loop. "
-                "Premise R-C13-PRF re-runs C12/C10/C11.",
+                "Premise R-C13-PRF re-runs C12/C10/C11. Besides the per-class summaries, shape-independent small-length rules evaluate expand for buffer position x counter in {0,1,2,254,255} x every outlen 0..100 (HMAC transcript, bytes handed out, counter, position, refusal) as straight paths (length concrete, data symbolic, one path per alignment class) and compare them with the sequential reference: refuters only (nothing beyond the bound is covered), so an unrecognised loop shape with a defect that shows at small lengths is still reported.",
         "note": "Output values are not computed; HMAC is C12. 'Empty salt = 32 zero bytes' follows from C12's key-block rule for key length 0.",
         "technique": "finite-class symbolic path summaries (buffer position, counter class, length class) with uninterpreted HMAC events",
     },
@@ -187,7 +189,7 @@ CHECKS = {
         "text": "Hash_DRBG structure on every path: instantiate, reseed and feed are the documented Hash_df chains (constant header bytes, the working value V absorbed byte for byte, then the new "
                 "material, then C = Hash_df(0x00 | V)) with the counter reset/incremented as documented; generate, per generic iteration with and without the automatic reseed and per block length "
                 "1..32: output = leading bytes of Hash(V), H = Hash(3 | V), V' = V + H + C + counter as a big-endian 256-bit sum (exact support sets plus evaluation of the bit-level terms on corner and "
-                "pseudo-random assignments). Hash calls are uninterpreted events with fresh outputs. Premise R-C15-HASH re-runs all rules of C10/C11.",
+                "pseudo-random assignments). Hash calls are uninterpreted events with fresh outputs. Premise R-C15-HASH re-runs all rules of C10/C11. Every site that generates a block exists both with and without the automatic reseed in front of it.",
         "note": "Output values are not computed (hash: C10/C11); reseed placement is C16; the sum is checked for counters below 2^31.",
         "technique": "symbolic path summaries with uninterpreted hash events; bit-level term evaluation for the 256-bit addition",
     },
